@@ -32,6 +32,32 @@ fn conv(s: &SeqSpec) -> PResult {
     // and agrees with parsing the text directly in the target codec
     ensure!(Seq::<IupacC>::try_from(txt.as_str()).ok().as_ref() == Some(&i), "to_iupac/parse", "converted != parsed {txt}");
     ensure!(Seq::<TextC>::try_from(txt.as_str()).ok().as_ref() == Some(&t), "to_text/parse", "converted != parsed {txt}");
+    // the static array type converts the same way (by reference and by value)
+    macro_rules! arr_conv {
+        ($n:literal, $w:literal) => {
+            if s.len() == $n {
+                let mut words = [0usize; $w];
+                for (i, w) in model::pack_words(&s.codes, 2).iter().enumerate() {
+                    words[i] = *w as usize;
+                }
+                let arr: SeqArray<DnaC, $n, $w> = SeqArray { _p: core::marker::PhantomData, ba: bitvec::array::BitArray::new(words) };
+                let a1: Seq<IupacC> = Seq::from(&arr);
+                check_symbols(&si, &a1, &exp_i, "array_ref_to_iupac")?;
+                let a2: Seq<TextC> = Seq::from(&arr);
+                check_symbols(&st, &a2, &letters, "array_ref_to_text")?;
+                let a3: Seq<IupacC> = Seq::from(arr);
+                check_symbols(&si, &a3, &exp_i, "array_to_iupac")?;
+            }
+        };
+    }
+    arr_conv!(1, 1);
+    arr_conv!(5, 1);
+    arr_conv!(31, 1);
+    arr_conv!(32, 1);
+    arr_conv!(33, 2);
+    arr_conv!(63, 2);
+    arr_conv!(64, 2);
+    arr_conv!(65, 3);
     // text bases back to DNA, symbol by symbol
     for (k, x) in t.iter().enumerate() {
         match DnaC::try_from(x) {
@@ -134,16 +160,21 @@ pub fn run(ctx: &mut Ctx) {
     let cases = ctx.cases(4000, 15);
     ctx.forall("dna_to_iupac_text", cases, gen::seq_spec(CodecId::Dna, max), conv);
     let th = ctx.thorough();
-    let cases = ctx.cases(8, 8);
-    ctx.forall("dna_to_iupac_text_long", cases, gen::seq_spec_long(CodecId::Dna, th), conv);
+    let lens = gen::long_lens(th);
+    ctx.forall_lens("dna_to_iupac_text_long", &lens, |n| gen::seq_spec_n(CodecId::Dna, n), conv);
     for id in ALL_CODECS {
         let m = id.model();
-        let cases = ctx.cases(5, 8);
         let acc = m.accepted_bytes();
-        let st = (vec(c01::bad_char(m), 0..=3), gen::long_len(th), proptest::option::weighted(0.3, (any::<u16>(), c01::bad_char(m))), vec(c01::bad_char(m), 0..=3))
-            .prop_flat_map(move |(lead, n, bad, trail)| (Just(lead), vec(proptest::sample::select(acc.clone()), n), Just(bad), Just(trail)))
-            .prop_map(move |(lead, body, bad, trail)| Trim { lead, body: c01::Case { codec: id, body, bad: bad.into_iter().collect() }, trail });
-        ctx.forall(&format!("trim_long/{}", id.name()), cases, st, dispatch_trim);
+        ctx.forall_lens(
+            &format!("trim_long/{}", id.name()),
+            &lens,
+            |n| {
+                let acc = acc.clone();
+                (vec(c01::bad_char(m), 0..=3), vec(proptest::sample::select(acc), n), proptest::option::weighted(0.3, (any::<u16>(), c01::bad_char(m))), vec(c01::bad_char(m), 0..=3))
+                    .prop_map(move |(lead, body, bad, trail)| Trim { lead, body: c01::Case { codec: id, body, bad: bad.into_iter().collect() }, trail })
+            },
+            dispatch_trim,
+        );
     }
     ctx.each("text_to_dna_all_bytes", (0..=255u8).collect::<Vec<u8>>(), text_to_dna);
     let max = ctx.pick(150, 1000);
